@@ -721,7 +721,11 @@ def build_source(spec):
     bound_ids = [it["id"] for lv in spec["levels"] for it in lv["items"] if it["bound"]]
     if bound_ids:
         lines.append(ind + "hold = [%s]" % ", ".join("m%d" % i for i in bound_ids))
-    cur = ind
+    base = ind
+    if spec.get("route") in ("break", "continue"):
+        lines.append(ind + "for _r in (0,):")  # a loop for the break / continue exit route
+        base = ind + ind
+    cur = base
     sib = 900
     for lv in spec["levels"]:
         for n in range(lv["pre"]):
@@ -784,11 +788,13 @@ def build_source(spec):
             lines.append(cur + "al%d = hold[%d]" % (i, n))
     lines.append(cur + "n0 = n0 + 0")
     lines.append(cur + ("await S()" if spec["async"] else "yield 2"))
+    if spec.get("route") in ("return", "break", "continue"):
+        lines.append(cur + spec["route"])  # how the with statements are left (default: falling off the end)
     # close the try: wrappers (need a finally clause), innermost first
     text = "\n".join(lines).split("\n")
     # compute closers: walk levels again to know indentation of each `try:` of kind "try"
     closers = []
-    cur = ind
+    cur = base
     for lv in spec["levels"]:
         if lv["wrap"] == "try":
             closers.append(cur)
@@ -804,6 +810,8 @@ def build_source(spec):
 ENV_SRC = '''
 import sys
 PROBE = None
+AEXIT_SUSPEND = False
+EXITING = []
 class U:
     def __init__(self):
         object.__setattr__(self, "_d", {})
@@ -834,6 +842,9 @@ class M:
     async def __aexit__(self, *a):
         if PROBE is not None:
             PROBE(sys._getframe(1), sys._getframe(0))
+        if AEXIT_SUSPEND:
+            EXITING.append(self.i)
+            await S()
         return False
 class S:
     def __await__(self):
@@ -936,6 +947,31 @@ def _ctx_key(c):
     return (id(c.obj), c.varname, c.start_line, bool(c.is_async), bool(c.is_exiting))
 
 
+def _check_ctx(c, it, exp, flocals, tag, problems, stats, slices_ok):
+    """one reported Context against its own with-item in the ast and the locals bound right now"""
+    lineno, is_async, tnode = exp[it["id"]]
+    if c.start_line != lineno:
+        problems.append("%s: start_line %r but the with keyword is on line %d" % (tag, c.start_line, lineno))
+    if bool(c.is_async) != is_async:
+        problems.append("%s: is_async %r" % (tag, c.is_async))
+    v = c.varname
+    sup = tnode is not None and supported_t(it["t"], slices_ok)
+    if tnode is not None and v is not None and same_target(v, tnode):
+        stats["rendered"] += 1
+        return
+    if sup:
+        problems.append("%s: supported target %r reported as varname %r" % (tag, src_t(it["t"]), v))
+        return
+    # no reconstructible target: None, or the name of a local CURRENTLY bound to the manager
+    if v is None:
+        stats["no_target" if tnode is None else "none_unsupported"] += 1
+    elif v in flocals and flocals[v] is c.obj:
+        stats["fallback_named"] += 1
+    else:
+        problems.append("%s: varname %r is neither the target %r nor a local currently bound to the manager" % (
+            tag, v, None if it["t"] is None else src_t(it["t"])))
+
+
 def runtime_check(spec, src=None, filename="<c08prog>", details=None):
     """run the generated function to its two suspension points inside the innermost body (between
     them the locals holding managers are cleared / the managers re-bound under other names); at
@@ -983,28 +1019,7 @@ def runtime_check(spec, src=None, filename="<c08prog>", details=None):
                         details.append({"item_id": it["id"], "phase": phase, "locals": loc,
                                         "obj": ids.setdefault(id(c.obj), len(ids)), "varname": c.varname})
                 for c, it in zip(ctxs, want):
-                    lineno, is_async, tnode = exp[it["id"]]
-                    tag = "suspension %d item %d" % (phase, it["id"])
-                    if c.start_line != lineno:
-                        problems.append("%s: start_line %r but the with keyword is on line %d" % (tag, c.start_line, lineno))
-                    if bool(c.is_async) != is_async:
-                        problems.append("%s: is_async %r" % (tag, c.is_async))
-                    v = c.varname
-                    sup = tnode is not None and supported_t(it["t"], slices_ok)
-                    if tnode is not None and v is not None and same_target(v, tnode):
-                        stats["rendered"] += 1
-                        continue
-                    if sup:
-                        problems.append("%s: supported target %r reported as varname %r" % (tag, src_t(it["t"]), v))
-                        continue
-                    # no reconstructible target: None, or the name of a local CURRENTLY bound to the manager
-                    if v is None:
-                        stats["no_target" if tnode is None else "none_unsupported"] += 1
-                    elif v in flocals and flocals[v] is c.obj:
-                        stats["fallback_named"] += 1
-                    else:
-                        problems.append("%s: varname %r is neither the target %r nor a local currently bound to the manager" % (
-                            tag, v, None if it["t"] is None else src_t(it["t"])))
+                    _check_ctx(c, it, exp, flocals, "suspension %d item %d" % (phase, it["id"]), problems, stats, slices_ok)
         finally:
             obj.close()
     for w in wlist:
@@ -1112,3 +1127,100 @@ def rebind_check(scn):
     if len(records) != want and not problems:
         problems.append("%d inspections recorded, expected %d" % (len(records), want))
     return records, problems
+
+
+# ------------------------------------------------------------------ the exiting entry
+ROUTES = ["fall", "return", "break", "continue"]
+
+
+def gen_exit_program(rng, n):
+    """nested (2-4 deep) with statements left by falling off / return / break / continue"""
+    spec = gen_program(rng, depth=rng.choice([2, 2, 3, 3, 4]), p_unsup=0.2)
+    spec["route"] = ROUTES[n % 4]
+    spec["no_sites"] = True
+    for lv in spec["levels"]:
+        if lv["wrap"] == "while":  # `continue` would re-enter the statements for ever
+            lv["wrap"] = "for"
+    return spec
+
+
+def exit_check(spec, src=None):
+    """Drive the program past its two suspensions and let every with statement exit normally by the
+    spec's route. Each exit is inspected AT THE EXITING MOMENT: (a) from inside __exit__ / __aexit__
+    (running frame, contexts_active_in_frame(frame, None, next_inner)), (b) for async managers also
+    with the coroutine suspended inside __aexit__ (stackscope.extract). Expected: the contexts still
+    entered (outer items, earlier items of the same statement) in order, then ONE exiting entry whose
+    obj / start_line / varname / is_async are those of its own with-item in the ast.
+    Returns (n_inspections, problems)."""
+    import warnings
+    import stackscope
+    from stackscope import lowlevel as ll
+    src = src or build_source(spec)
+    exp = expected_items(spec, ast.parse(src))
+    ns = make_env()
+    exec(compile(src, "<c08exit>", "exec"), ns)
+    obj = ns["g"]()
+    want = [it for lv in spec["levels"] for it in lv["items"]]
+    pos = {it["id"]: k for k, it in enumerate(want)}
+    problems = []
+    stats = {"fallback_named": 0, "none_unsupported": 0, "rendered": 0, "no_target": 0}
+    slices_ok = PY >= (3, 12)
+    count = [0]
+
+    def judge(ctxs, flocals, exiting_id, how):
+        count[0] += 1
+        k = pos.get(exiting_id)
+        tag0 = "%s, manager %r exiting (route %s)" % (how, exiting_id, spec.get("route", "fall"))
+        if k is None:
+            problems.append("%s: unexpected manager" % tag0)
+            return
+        ids = [getattr(c.obj, "i", None) for c in ctxs]
+        if ids != [it["id"] for it in want[:k + 1]]:
+            problems.append("%s: contexts %r, expected managers %r" % (tag0, ids, [it["id"] for it in want[:k + 1]]))
+            return
+        flags = [bool(c.is_exiting) for c in ctxs]
+        if flags != [False] * k + [True]:
+            problems.append("%s: is_exiting flags %r" % (tag0, flags))
+        for c, it in zip(ctxs, want[:k + 1]):
+            role = "exiting entry" if it["id"] == exiting_id else "active item %d" % it["id"]
+            _check_ctx(c, it, exp, flocals, "%s: %s" % (tag0, role), problems, stats, slices_ok)
+
+    def probe(fr, inner):
+        me = inner.f_locals.get("self")
+        a = ll.contexts_active_in_frame(fr, None, inner)
+        b = ll.contexts_active_in_frame(fr, None, inner)
+        if [_ctx_key(c) for c in a] != [_ctx_key(c) for c in b]:
+            problems.append("two inspections from inside the exit of %r differ" % (getattr(me, "i", None),))
+        judge(a, dict(fr.f_locals), getattr(me, "i", None), "probe from inside __%sexit__" % ("a" if inner.f_code.co_name == "__aexit__" else ""))
+
+    with warnings.catch_warnings(record=True) as wlist:
+        warnings.simplefilter("always")
+        try:
+            if spec["async"]:
+                assert obj.send(None) == 42 and obj.send(None) == 42
+            else:
+                assert next(obj) == 1 and next(obj) == 2
+            ns["PROBE"] = probe
+            ns["AEXIT_SUSPEND"] = True
+            for _ in range(len(want) + 2):
+                try:
+                    got = obj.send(None) if spec["async"] else next(obj)
+                except StopIteration:
+                    break
+                if not (spec["async"] and got == 42 and ns["EXITING"]):
+                    problems.append("unexpected suspension %r after the second one" % (got,))
+                    break
+                stack = stackscope.extract(obj, with_contexts=True)
+                judge(list(stack.frames[0].contexts), dict(obj.cr_frame.f_locals), ns["EXITING"][-1], "suspended inside __aexit__")
+            else:
+                problems.append("the program did not finish")
+        finally:
+            ns["PROBE"] = None
+            ns["AEXIT_SUSPEND"] = False
+            obj.close()
+    for w in wlist:
+        problems.append("warning during inspection: %s" % (w.message,))
+    n_async = sum(1 for lv in spec["levels"] if lv["async"] for _ in lv["items"])
+    if not problems and count[0] != len(want) + n_async:
+        problems.append("%d exit inspections, expected %d" % (count[0], len(want) + n_async))
+    return count[0], problems
